@@ -232,7 +232,17 @@ class Run:
         import gymnasium
         gymnasium.logger.min_level = 50
         from agilerl.vector.pz_async_vec_env import AsyncPettingZooVecEnv
+        co = self.case.get("companion")           # a SECOND, independent vector environment in the same process
+        self.vec2, self.procs2 = None, []
+        if co and co["when"] == "before":
+            self.ctl2 = Ctl(len(co["plans"]))
+            self.vec2 = AsyncPettingZooVecEnv(make_env_fns(self.ctl2, co["plans"]))
         self.vec = AsyncPettingZooVecEnv(make_env_fns(self.ctl, self.case["plans"]))
+        if co and co["when"] == "after":
+            self.ctl2 = Ctl(len(co["plans"]))
+            self.vec2 = AsyncPettingZooVecEnv(make_env_fns(self.ctl2, co["plans"]))
+        if self.vec2 is not None:
+            self.procs2 = list(self.vec2.processes)
         self.procs = list(self.vec.processes)
         pp = getattr(self.vec, "parent_pipes", None)
         if self.free:
@@ -246,6 +256,20 @@ class Run:
             raise HarnessStall("cannot find parent_pipes/processes of the vector environment")
 
     def teardown(self):
+        for p in list(getattr(self, "procs2", [])):
+            try:
+                if p.is_alive():
+                    p.kill()
+                p.join(1.0)
+            except Exception:
+                pass
+        try:
+            if getattr(self, "vec2", None) is not None:
+                self.vec2.closed = True
+                self.vec2.error_queue.close()
+                self.vec2.error_queue.cancel_join_thread()
+        except Exception:
+            pass
         for p in self.procs:
             try:
                 if p.is_alive():
@@ -304,14 +328,40 @@ class Run:
     def api(self, op):
         v = self.vec
         k = op[0]
+        import copy
+        self.probes = []                          # (name, object handed to the call, deep copy taken before the call)
+
+        def probe(name, obj):
+            self.probes.append((name, obj, copy.deepcopy(obj)))
+            return obj
         if k == "async":
             kind = op[1]
             if kind == "reset":
-                return lambda: v.reset_async()
+                opts = probe("options", {"k": [1, 2], "d": {"x": 0}})
+                return lambda: v.reset_async(options=opts)
             if kind == "step":
-                acts = [[0, 0] for _ in range(self.n)]
+                acts = probe("actions", [[0, 1] for _ in range(self.n)])
                 return lambda: v.step_async(acts)
             return lambda: v.call_async("ping")
+        if k == "co":                             # a call on the companion environment
+            v2 = self.vec2
+            if op[1] == "reset":
+                return lambda: v2.reset()
+            if op[1] == "call":
+                return lambda: v2.call("ping")
+            return lambda: v2.close()
+        if k == "argerr":                         # calls that must be rejected for their arguments, before anything is sent
+            m = self.n - 1 if op[1].endswith("short") else self.n + 1
+            if op[1].startswith("setattr"):
+                vals = probe("values", [3] * m)
+                return lambda: v.set_attr("knob", vals)
+            seeds = probe("seed", list(range(m)))
+            return lambda: v.reset_async(seed=seeds)
+        if k == "setattr_list":
+            vals = probe("values", [10 + i for i in range(self.n)])
+            return lambda: v.set_attr("knob", vals)
+        if k == "getattr":
+            return lambda: v.get_attr("knob")
         ft = FREE_TIMEOUT if self.free else FIN_TIMEOUT
 
         def tmo(x):                               # True -> the mode's standard finite timeout; a number -> seconds
@@ -324,7 +374,7 @@ class Run:
                 return lambda: v.reset()
             if op[1] == "step":
                 import numpy as np
-                acts = {a: np.zeros(self.n, dtype=np.int64) for a in v.agents}
+                acts = probe("actions", {a: np.arange(self.n, dtype=np.int64) % 3 for a in v.agents})
                 return lambda: v.step(acts)
             return lambda: v.call("ping")
         if k == "callbad":
@@ -340,6 +390,17 @@ class Run:
                 kw["terminate"] = True
             return lambda: v.close(**kw)
         raise ValueError(op)
+
+
+def same_value(a, b):
+    import numpy as np
+    if isinstance(a, np.ndarray) or isinstance(b, np.ndarray):
+        return isinstance(a, np.ndarray) and isinstance(b, np.ndarray) and a.dtype == b.dtype and a.shape == b.shape and bool(np.array_equal(a, b))
+    if isinstance(a, dict) and isinstance(b, dict):
+        return list(a.keys()) == list(b.keys()) and all(same_value(a[k], b[k]) for k in a)
+    if isinstance(a, (list, tuple)) and isinstance(b, (list, tuple)):
+        return type(a) is type(b) and len(a) == len(b) and all(same_value(x, y) for x, y in zip(a, b))
+    return type(a) is type(b) and a == b
 
 
 def is_num(x):
@@ -359,6 +420,9 @@ def classify_exc(e):
         return "Closed", None
     if isinstance(e, mp.TimeoutError):
         return "Timeout", None
+    if (isinstance(e, ValueError) and "Values must be a list or tuple" in str(e)) or \
+            (isinstance(e, AssertionError) and "must match num_envs" in str(e)):
+        return "ArgErr", None
     if isinstance(e, (EOFError, ConnectionError)):
         return "Gone", None
     if isinstance(e, AttributeError) and re.search(r"'NoneType' object has no attribute '(send|recv|close|poll|closed)'", str(e)):
@@ -435,11 +499,18 @@ def run_case(case, progress=None):
                     rec["msg"] = str(val)[:160]
                 else:
                     rec["out"] = "Ok"
-                    if op[0] in ("wait", "sync"):
+                    if op[0] in ("wait", "sync") or (op[0] == "co" and op[1] in ("reset", "call")):
                         rec["seqs"] = extract_seqs(op, val, run.n)
+                    if op[0] == "getattr":
+                        try:
+                            rec["values"] = [int(x) for x in val]
+                        except Exception:
+                            rec["values"] = repr(val)[:80]
                 if op[0] in ("async", "setattr", "sync") and rec["out"] == "Ok" and not run.free:
                     rec["expect_seqs"] = [s - 1 for s in run.env_sent]
                 rec["sent"] = [a - b for a, b in zip(run.env_sent, sent0)]
+                if rec["out"] != "Hang":
+                    rec["args_modified"] = [nm for nm, obj, before in getattr(run, "probes", []) if not same_value(obj, before)]
                 if rec["out"] != "Hang" and not run.free:
                     for j in range(run.n):
                         if not run.pipes[j]._closed:
@@ -452,6 +523,10 @@ def run_case(case, progress=None):
             rec["state"] = run.vec._state.value
             rec["closed"] = bool(run.vec.closed)
             rec["alive"] = [p.is_alive() for p in run.procs]
+            if run.procs2:
+                rec["co_alive"] = [p.is_alive() for p in run.procs2]
+                rec["co_state"] = run.vec2._state.value
+                rec["co_closed"] = bool(run.vec2.closed)
             rec["raised"] = [run.ctl.get(j, F_RAISED) for j in range(run.n)]
             rec["dropped"] = [p is None for p in run.vec.parent_pipes]
             rec["blocked_after"] = [run.is_blocked(j) for j in range(run.n)]
@@ -693,7 +768,7 @@ class Sandbox:
 ST = {"default": "DEFAULT", "reset": "W_RESET", "step": "W_STEP", "call": "W_CALL"}
 KD = {"reset": "KReset", "step": "KStep", "call": "KCall"}
 OUT = {"Ok": "CO_Ok", "Pending": "CO_Pending", "NoCall": "CO_NoCall", "Closed": "CO_Closed", "Timeout": "CO_Timeout",
-       "Gone": "CO_Gone", "Attr": "CO_Attr", "Hang": "CO_Hang", "Other": "CO_Other"}
+       "Gone": "CO_Gone", "Attr": "CO_Attr", "Hang": "CO_Hang", "Other": "CO_Other", "ArgErr": "CO_ArgErr"}
 
 
 def cq_bool(b):
@@ -712,6 +787,12 @@ def cq_op(op):
         return f"OWait {KD[op[1]]} {cq_bool(op[2])}"
     if k == "sync":
         return f"XSync {KD[op[1]]}"
+    if k == "argerr":
+        return "XArg"
+    if k == "setattr_list":
+        return "OSetAttr"
+    if k == "getattr":
+        return "XSync KCall"
     if k == "callbad":
         return "OCallBad"
     if k == "setattr":
@@ -729,7 +810,7 @@ def cq_op(op):
 # the driver
 # ------------------------------------------------------------------------------------------------
 def ckey(case):
-    return json.dumps({"plans": case["plans"], "ops": case["ops"], "mode": case.get("mode", "serial")}, sort_keys=True)
+    return json.dumps({"plans": case["plans"], "ops": case["ops"], "mode": case.get("mode", "serial"), "co": case.get("companion")}, sort_keys=True)
 
 
 def legal_close(ops):
@@ -922,6 +1003,38 @@ class C13(vlib.Driver):
                     cases.append({"plans": pl, "ops": [list(so), ["close", False, False]], "fam": "sync"})
                     pl = [[["normal"]], [["normal"]]]; pl[w] = [["normal"], b]
                     cases.append({"plans": pl, "ops": [["sync", "reset"], list(so), ["sync", "call"], ["close", False, True]], "fam": "sync"})
+        # (J) calls rejected for their ARGUMENTS (set_attr / reset_async with the wrong number of values / seeds), per-env
+        #     value lists and get_attr: every sequence <= 2 over a small alphabet that contains one of them; and the same
+        #     after an exception was raised to (and caught by) the caller — further use of the same object
+        argops = [["argerr", "setattr_short"], ["argerr", "setattr_long"], ["argerr", "seed_short"], ["argerr", "seed_long"],
+                  ["setattr_list"], ["getattr"]]
+        base_j = [["async", "reset"], ["async", "step"], ["wait", "reset", False], ["setattr"], ["sync", "step"], ["close", False, False]]
+        for L in (1, 2):
+            for seq in itertools.product(base_j + argops, repeat=L):
+                if any(o[0] in ("argerr", "setattr_list", "getattr") for o in seq):
+                    cases.append({"plans": normal(2), "ops": legal_close([list(o) for o in seq] + [["getattr"]]), "fam": "args"})
+        for a in argops:
+            cases.append({"plans": normal(3), "ops": [["setattr_list"], list(a), ["getattr"], ["sync", "reset"], ["close", False, False]], "fam": "args"})
+            for b in (["raise", 1], ["raise", NEXC - 1]):
+                cases.append({"plans": [[b], []], "fam": "args",
+                              "ops": [["async", "reset"], ["wait", "reset", False], list(a), ["async", "step"], ["close", False, False]]})
+                cases.append({"plans": [[], [["normal"], b]], "fam": "args",
+                              "ops": [["setattr_list"], list(a), ["getattr"], list(a), ["close", False, False]]})
+        # (K) state must not persist across OBJECTS: a second, independent vector environment lives in the same process
+        #     (created before or after the main one); faults, misuse, terminate and close of one must not touch the other
+        for when in ("before", "after"):
+            for co_pl in ([[]], [[["raise", 2]], []]):
+                comp = {"when": when, "plans": co_pl}
+                scripts = [
+                    ([[], []], [["async", "reset"], ["co", "reset"], ["wait", "reset", False], ["close", False, True], ["co", "call"], ["co", "close"]]),
+                    ([[["raise", 1]], []], [["async", "step"], ["co", "reset"], ["wait", "step", False], ["co", "call"], ["close", False, False], ["co", "call"], ["co", "close"]]),
+                    ([[], [["die"]]], [["async", "call"], ["wait", "call", True], ["co", "reset"], ["close", True, False], ["co", "close"]]),
+                    ([[["sleep"]], []], [["async", "reset"], ["wait", "reset", True], ["co", "reset"], ["close", False, True], ["co", "reset"], ["co", "close"]]),
+                    ([[], []], [["co", "reset"], ["co", "close"], ["sync", "reset"], ["async", "step"], ["kill", 0], ["wait", "step", False], ["close", False, False]]),
+                    ([[], []], [["wait", "step", False], ["async", "reset"], ["async", "step"], ["co", "call"], ["callbad"], ["close", False, False], ["co", "reset"], ["co", "close"]]),
+                ]
+                for pl, ops in scripts:
+                    cases.append({"plans": pl, "ops": ops, "fam": "companion", "companion": comp})
         # (G) staggered readiness in pipe order (free-running, real delays): worker answers after d_i seconds; with the
         #     shared deadline a wait/close with timeout T gives up at T as soon as max d_i > T, however the others are staggered
         T = STAG_T
@@ -1039,7 +1152,7 @@ class C13(vlib.Driver):
             return None
         if case.get("mode") == "free":
             return None                            # real interleavings: the oracle only
-        tr = obs["trace"]
+        tr = [r for r in obs["trace"] if r["op"][0] != "co"]
         # after a timeout the pipes hold answers of an earlier call; a *_wait of a different kind then fails inside
         # the parent with an arbitrary exception (reported by the oracle as timeout-stale): K compares the prefix
         seen_timeout = False
@@ -1058,8 +1171,8 @@ class C13(vlib.Driver):
             g = "None" if r.get("seqs") is None else "(Some [" + "; ".join(str(int(s)) for s in r["seqs"]) + "])"
             obl.append(f"({oc}, {st}, {cq_bool(r['closed'])}, {alive}, {g})")
         plans = "[" + "; ".join("[" + "; ".join(cq_behav(b) for b in p) + "]" for p in case["plans"]) + "]"
-        if any(r["op"][0] == "sync" for r in tr):
-            ops = [o if o.startswith("XSync") else f"XOp ({o})" for o in ops]
+        if any(r["op"][0] in ("sync", "argerr", "getattr") for r in tr):
+            ops = [o if o.startswith("X") else f"XOp ({o})" for o in ops]
             return f"check_run_x {self.variant} {plans} [{'; '.join(ops)}] [{'; '.join(obl)}]"
         return f"check_run {self.variant} {plans} [{'; '.join(ops)}] [{'; '.join(obl)}]"
 
@@ -1078,6 +1191,8 @@ class C13(vlib.Driver):
         elif obs.get("hard_phase") in ("teardown", "between", "idle"):
             out.append(Violation("no-hang", f"hang:{obs.get('hard_phase')}", f"the run did not finish within {CASE_LIMIT} s after its last "
                                  "operation (the supervising process killed the whole process group)"))
+        co_used, co_failed, co_closed, co_cmds = False, False, False, 0
+        knob = [0] * n          # what get_attr("knob") must return: the values of the last successful set_attr
         gone_before = False     # a wait on the pending call already failed because a worker is gone (half-consumed call)
         clean = True            # no timeout / dead worker / failed call so far
         killed = False
@@ -1091,6 +1206,44 @@ class C13(vlib.Driver):
             k = op[0]
             sb, cb = r["state_before"], r["closed_before"]
             where = f"op {i} {op}"
+            # ---- a second environment in the same process is a world of its own
+            if "co_alive" in r:
+                if k == "co":
+                    co = case["companion"]
+                    want_exc = [b[1] for p in co["plans"] for b in p[:1] if b[0] == "raise"] if not co_used else []
+                    if op[1] in ("reset", "call"):
+                        co_used = True
+                        ok = (r["out"] == "Exc" and r["code"] in want_exc) if want_exc else (r["out"] == "Ok" and r["seqs"] is not None and all(x == co_cmds for x in r["seqs"]))
+                        if not ok and not co_failed:
+                            out.append(Violation("independent-environments", f"companion:{op[1]}",
+                                                 f"{where}: the companion environment (plans {co['plans']}) answered {r['out']} ({r['exc']}), results {r['seqs']}; "
+                                                 + (f"expected the exception its own worker raised ({[EXC_NAMES[x] for x in want_exc]})" if want_exc else f"expected Ok with command number {co_cmds}")))
+                        if want_exc:
+                            co_failed = True
+                        co_cmds += 1
+                    elif op[1] == "close":
+                        if r["out"] != "Ok" or any(r["co_alive"]) or not r["co_closed"]:
+                            out.append(Violation("independent-environments", "companion:close", f"{where}: companion close -> {r['out']} ({r['exc']}), alive {r['co_alive']}"))
+                        co_closed = True
+                    if r["state"] != sb or r["closed"] != cb or r["alive"] != r["alive_before"]:
+                        out.append(Violation("independent-environments", "companion:disturbs-main",
+                                             f"{where}: a call on the companion environment changed the main one: state {sb}->{r['state']}, closed {cb}->{r['closed']}, alive {r['alive_before']}->{r['alive']}"))
+                    continue
+                if not co_closed and not co_failed and not all(r["co_alive"]):
+                    out.append(Violation("independent-environments", f"companion:worker-lost:{k}",
+                                         f"{where}: a call on the main environment left the companion's workers {r['co_alive']}"))
+                    co_failed = True
+                if r.get("co_state") != "default" and not co_failed:
+                    out.append(Violation("independent-environments", f"companion:state:{k}", f"{where}: the companion's state became `{r.get('co_state')}`"))
+                    co_failed = True
+            # ---- the callee must not write into what it was handed
+            if r.get("args_modified"):
+                out.append(Violation("arguments-unmodified", f"args-modified:{k}:{'+'.join(r['args_modified'])}",
+                                     f"{where}: the call changed its argument(s) {r['args_modified']} (compared with a deep copy taken before the call)"))
+            if k == "setattr_list":
+                k = "setattr"
+            elif k == "getattr":
+                k, op = "sync", ["sync", "call"]
             # (free-running: a worker that raised earlier may finish exiting at any moment)
             unchanged = (r["state"] == sb and r["closed"] == cb and (free or r["alive"] == r["alive_before"]))
             if k in ("release", "kill"):
@@ -1107,6 +1260,12 @@ class C13(vlib.Driver):
             if cb and k == "close":
                 if r["out"] != "Ok":
                     out.append(Violation("misuse-rejected", "misuse:close-twice", f"{where}: second close() -> {r['out']} ({r['exc']})"))
+                continue
+            if k == "argerr":
+                # rejected for its arguments before the pending-call guard is even looked at: documented error, nothing changes
+                if r["out"] != "ArgErr" or not unchanged or any(r["sent"]):
+                    out.append(Violation("misuse-rejected", f"argument:{op[1]}",
+                                         f"{where} (state `{sb}`): outcome {r['out']} ({r['exc']}: {r.get('msg')}), state {sb}->{r['state']}, commands sent {r['sent']}"))
                 continue
             if k in ("async", "callbad", "setattr", "sync") and sb != "default":
                 if r["out"] != "Pending" or not unchanged or any(r["sent"]):
@@ -1227,6 +1386,11 @@ class C13(vlib.Driver):
                     out.append(Violation("legal-call", f"legal-call-state:{k}", f"{where}: state `{r['state']}` after a successful {op[1]}_async"))
                 elif k in ("wait", "setattr", "sync") and r["out"] == "Ok" and r["state"] != "default":
                     out.append(Violation("legal-call", f"legal-call-state:{k}", f"{where}: state `{r['state']}` after a successful call"))
+            if r["op"][0] in ("setattr", "setattr_list") and r["out"] == "Ok":
+                knob = [7] * n if r["op"][0] == "setattr" else [10 + j for j in range(n)]
+            if r["op"][0] == "getattr" and r["out"] == "Ok" and clean and r.get("values") != knob:
+                out.append(Violation("legal-call", "set_attr:values-not-distributed",
+                                     f"{where}: get_attr returned {r.get('values')}, the last successful set_attr set {knob}"))
             if k == "wait" and r["out"] == "Gone":
                 gone_before = True
             if r["state"] == "default":
@@ -1249,7 +1413,7 @@ class C13(vlib.Driver):
         for r in obs["trace"]:
             if r["op"][0] in ("kill", "callbad"):
                 return True
-            if r["out"] in ("Pending", "NoCall", "Closed", "Timeout", "Exc", "Gone", "Attr", "Hang"):
+            if r["out"] in ("Pending", "NoCall", "Closed", "Timeout", "Exc", "Gone", "Attr", "Hang", "ArgErr"):
                 return True
             if any(r["blocked_before"]):
                 return True
